@@ -12,7 +12,7 @@ import json
 import logging
 import os
 
-from .common import enc, exc_name
+from .common import dec, enc, exc_name
 
 _lg = logging.getLogger('pypyr')
 _lg.addHandler(logging.NullHandler())
@@ -214,19 +214,42 @@ def run_parser_args(fmt, args, dflt=_UNSET):
     return {'ok': enc(plain(out))}
 
 
+REF_FORMATTER = None          # set by props/c16.py: (ctx_values, value) -> {'ok': wire} | {'err': …} | None (not modelled)
+FORMAT_DISAGREEMENTS = []     # [{'ctx', 'value', 'impl', 'model'}] since the last drain
+
+
 def real_format(ctx_values, value, fmt=None):
-    """pypyr's own formatter on a value: the oracle for "its formatted value" in the monitors. `fmt='json'`: with
+    """The reference for "its formatted value" in the monitors. Where the Lean formatter model (REF_FORMATTER: the
+    faithful tree model `Format.fmtVal`, the function the C08/C09 theorems are about) gives a value, THAT is the
+    reference - the implementation's own formatter cannot be the judge of a flow that runs through it; where they
+    differ the pair is recorded in FORMAT_DISAGREEMENTS. Where the model has nothing to say (input outside its
+    domain, an error on its side) pypyr's own formatter is used. `fmt='json'`: with
     the mapping keys as JSON can hold them (`json_coerce_keys`) - a formatted payload with an int/bool/None/float key
     is not JSON-representable as it stands; what a JSON file can give back of it is the member name json.dump writes."""
     from pypyr.context import Context
     ctx = Context(dict(ctx_values))
+    ref = None
+    if REF_FORMATTER is not None:
+        try:
+            ref = REF_FORMATTER(ctx_values, value)
+        except Exception:   # noqa: BLE001
+            ref = None
     try:
         out = plain(ctx.get_formatted_value(value))
-        if fmt == 'json':
-            out = json_coerce_keys(out)
-        return {'ok': enc(out)}
+        own = {'ok': enc(out)}
     except Exception as e:
-        return err(e)
+        own = err(e)
+    if ref is not None and 'ok' in ref:
+        if sort_wire(own.get('ok')) != sort_wire(ref['ok']):
+            FORMAT_DISAGREEMENTS.append({'ctx': enc(plain_keep(dict(ctx_values))), 'value': enc(plain_keep(value)),
+                                         'impl': own, 'model': ref})
+        own = ref
+    if fmt == 'json' and 'ok' in own:
+        try:
+            own = {'ok': enc(json_coerce_keys(dec(own['ok'])))}
+        except Exception as e:
+            own = err(e)
+    return own
 
 
 def json_key(k):
